@@ -49,7 +49,7 @@ import (
 )
 
 func init() {
-	components["wsconc"] = &component{gen: wsconcGen, enum: wsconcEnum, run: wsconcRun}
+	components["wsconc"] = &component{gen: wsconcGen, enum: wsconcEnum, run: wsconcRun, direct: wsconcDirect}
 }
 
 type wsconcCb struct {
@@ -469,7 +469,14 @@ func (lw *wsconcWorld) finish() {
 		}
 		lw.exec([]string{"flush", strconv.Itoa(id)})
 		idle := 0
-		for round := 0; round < 600 && idle < 3; round++ {
+		// patient only while something is owed: on a loaded machine the loopback may need a moment
+		limit := func() int {
+			if len(lw.outstanding()) > 0 {
+				return 6
+			}
+			return 3
+		}
+		for round := 0; round < 600 && idle < limit(); round++ {
 			before := lw.moved
 			lw.drain()
 			if len(lw.outstanding()) == 0 && lw.rxPeer >= lw.txBytes && lw.ioc.Pending() == 0 {
@@ -485,13 +492,13 @@ func (lw *wsconcWorld) finish() {
 				}
 			}
 			if lw.readBusy && lw.rxBytes < lw.peerSent {
-				waitReady(lw.cfd, unix.POLLIN, 20)
+				waitReady(lw.cfd, unix.POLLIN, 20+20*idle)
 			}
 			lw.exec([]string{"poll"})
 			if lw.moved == before {
 				idle++
 				if lw.writeBusy() {
-					waitReady(lw.cfd, unix.POLLOUT, 30)
+					waitReady(lw.cfd, unix.POLLOUT, 30+20*idle)
 				}
 			} else {
 				idle = 0
